@@ -71,6 +71,7 @@ structure St where
   avail : List UInt8 := []
   gone : Bool := false
   out : List String := []   -- observation tokens, reversed groups
+  hintCalls : Nat := 0      -- hinter calls so far (the helper outlives a read)
 
 /-- request: `raw <mode> <flags> <termios> <helper> tok…` -/
 def handle (tbl : CharTable) (f : List String) (impl : String) : Option (String × String) :=
@@ -83,19 +84,33 @@ def handle (tbl : CharTable) (f : List String) (impl : String) : Option (String 
     let t0 ← parseTermios tio
     let h ← Rl.Drv.Editor.parseHelper helper
     let readsToks := splitReads toks
-    let reads ← readsToks.mapM (fun r => r.mapM parseHex)
+    -- a read may start with `=<termios>`: settings the application installs before that read
+    let reads ← readsToks.mapM (fun r =>
+      match r with
+      | t :: rest =>
+        if t.startsWith "=" then do
+          let tio ← parseTermios (t.drop 1).toString
+          let ks ← rest.mapM parseHex
+          pure (some tio, ks)
+        else do pure (none, ← r.mapM parseHex)
+      | [] => pure (none, []))
     let ecfg := Rl.Drv.Editor.mkCfg vi 80 "" [] h []
     let S := uaxSeg (Rl.Drv.Editor.clsOf tbl)
     let U := Rl.Drv.Editor.udataOf tbl
     let cfg : Cfg := { enableSignals := flags.contains 's', bracketedPaste := !flags.contains 'B' }
-    let step (st : St) (keys : List (List UInt8)) : St :=
+    let step (st : St) (rd : Option Termios × List (List UInt8)) : St :=
       if st.gone then st
       else
+        let keys := rd.2
+        let st := match rd.1 with
+          | some t => { st with term := { st.term with termios := t } }
+          | none => st
         let before := st.term.termios
         -- what the reader sees while it waits: the settings `enableRaw` installs
         let during := (enableRaw cfg st.term).2.termios
         let chunks := (keys.map (fun k => k.flatMap (ldiscIn during))).filter (fun k => !k.isEmpty)
         let input : Input := { buf := st.buf, avail := st.avail, future := chunks }
+        let ecfg := { ecfg with hintCallsBase := st.hintCalls }
         let (o, s) := readline S U ecfg st.ring [] [] input
         match exitOf o s.validatorCalls.length with
         | none => { st with gone := true, out := "r=model-out-of-fuel" :: st.out }
@@ -104,10 +119,13 @@ def handle (tbl : CharTable) (f : List String) (impl : String) : Option (String 
           let (_, term') := readlineWith cfg sc st.term
           let hup := exit == .hangup
           let outcome := (if hup then "hup+" else "") ++ Rl.Drv.Editor.showOutcome o
-          let grp := [s!"b={showTermios before}", s!"d={showTermios during}",
+          -- a helper panicking while the prompt is first drawn ends the read before it ever waits
+          -- for a key: the harness then has no sample of the settings "during" the read
+          let neverWaited := o == .panic && s.hintCalls == 1 && ecfg.hinterPanicAt == some (st.hintCalls + 1)
+          let grp := [s!"b={showTermios before}", s!"d={if neverWaited then "-" else showTermios during}",
                       s!"a={if hup then "gone" else showTermios term'.termios}",
                       s!"p={showSwitches (term'.log.drop st.term.log.length)}", s!"r={outcome}"]
-          { term := term', ring := s.ring,
+          { term := term', ring := s.ring, hintCalls := st.hintCalls + s.hintCalls,
             buf := (match o with | .line _ => s.input.buf | _ => []), avail := s.input.avail,
             gone := hup, out := " ".intercalate grp :: st.out }
     let st := reads.foldl step { term := Term.fresh t0, ring := KillRing.new 60 }
